@@ -103,6 +103,23 @@ def gen_cases(ctx):
                 b = ("f", bv) if kb == "f" else c03.mk(rng, 1 if kb == "d" else 2, lay(rng), re=bv)
                 cases.append(("numbin", 0, 10, [12, 10] + dg.enc_number(a) + dg.enc_number(b),
                               "Number(%s) abs_sub Number(%s), values %r, %r" % (KN[ka], KN[kb], av, bv), (av, bv)))
+    # ---- ZEROS OF OPPOSITE SIGN (and equal zeros) in every ordering, a float on either side of a Dual / Dual2 and through the
+    #      Number container: +0.0 and -0.0 are equal numbers (abs of a zero-valued dual returns -0.0 ...)
+    for kind in (1, 2):
+        for oc in (5, 6, 7, 8, 9):
+            for side in (0, 1):
+                for av, f in ((0.0, -0.0), (-0.0, 0.0), (0.0, 0.0), (-0.0, -0.0)):
+                    a = c03.mk(rng, kind, lay(rng), re=av)
+                    cases.append(("mix", kind, oc, [4, kind, oc, side] + dg.enc_number(a)[1:] + dg.enc_f(f),
+                                  ("%s %s f64" if side == 0 else "f64 %s %s") % (("Dual" if kind == 1 else "Dual2", BIN[oc]) if side == 0 else (BIN[oc], "Dual" if kind == 1 else "Dual2")) + ", values %r, %r" % (av, f)))
+    for ka in ("f", "d", "d2"):
+        for oc in (6, 7, 8, 9):
+            for side in (0, 1):
+                for av, f in ((0.0, -0.0), (-0.0, 0.0)):
+                    a = ("f", av) if ka == "f" else c03.mk(rng, 1 if ka == "d" else 2, lay(rng), re=av)
+                    cases.append(("numord", 0, oc, [13, oc, side] + dg.enc_number(a) + dg.enc_f(f),
+                                  ("Number(%s) %s f64" if side == 0 else "f64 %s Number(%s)") % ((KN[ka], BIN[oc]) if side == 0 else (BIN[oc], KN[ka]))
+                                  + ", values %r, %r" % (av, f), (av, f) if side == 0 else (f, av)))
     # ---- the remainder through the Number container (the enum-wrapper dispatch of %): the 3 x 3 table and a float on either
     #      side, negative values and divisors, equal magnitudes
     for ka in ("f", "d", "d2"):
